@@ -287,7 +287,8 @@ def strat_outputs(draw):
     }
 
 
-ANN_MODELS = {"M": ["M"], "Mc": ["Mc"], "OptM": ["M"], "OptMc": ["Mc"], "UnionMM2": ["M", "M2"], "M2": ["M2"]}
+ANN_MODELS = {"M": ["M"], "Mc": ["Mc"], "OptM": ["M"], "OptMc": ["Mc"], "UnionMM2": ["M", "M2"], "M2": ["M2"],
+              "OptMq": ["M"], "OptMcq": ["Mc"], "AnnM": ["M"]}
 
 
 @st.composite
@@ -322,10 +323,10 @@ def strat_types(draw):
     others = OTHER_NAMES[: draw(st.integers(0, 2))]
     idx = draw(st.integers(0, len(others)))
     pos = others[:idx] + ["df"] + others[idx:]
-    anns = {"df": draw(st.sampled_from(["M", "M", "Mc", "Mc", "OptM", "OptMc", "UnionMM2"]))}
+    anns = {"df": draw(st.sampled_from(["M", "M", "Mc", "Mc", "OptM", "OptMc", "UnionMM2", "OptMq", "OptMcq", "AnnM"]))}
     if draw(st.integers(0, 3)) == 0:
         pos.insert(draw(st.integers(0, len(pos))), "df2")
-        anns["df2"] = draw(st.sampled_from(["M", "Mc", "OptM"]))
+        anns["df2"] = draw(st.sampled_from(["M", "Mc", "OptM", "OptMq", "AnnM"]))
     ndef = draw(st.integers(0, len(pos)))
     defaulted = set(pos[len(pos) - ndef:])
     has_var = draw(st.integers(0, 2)) == 0
@@ -380,7 +381,7 @@ def strat_types(draw):
         kw.reverse()
 
     frame_params = [n for n in ("df", "df2") if n in anns]
-    ret_ann = draw(st.sampled_from([None, None, "M", "Mc", "OptM", "UnionMM2"]))
+    ret_ann = draw(st.sampled_from([None, None, "M", "Mc", "OptM", "UnionMM2", "OptMq", "AnnM"]))
     if ret_ann:
         src = draw(st.sampled_from(["fresh", "fresh"] + frame_params))
         fresh = None
